@@ -666,3 +666,41 @@ func (p *Prog) e1Func(r *e1Result, fn *ssa.Function) {
 
 // HeldAt returns the abstract locks held just before instruction in (intra-procedural).
 func (p *Prog) HeldAt(in ssa.Instruction) []LockRef { return p.E1().held[in] }
+
+// SameSection: instructions a and b (of one function) execute in the same critical section
+// of some lock: either both are inside the same acquisition made by the function, or the
+// function is only ever entered with a lock held (entry lockset) and never releases it —
+// the case of a private helper documented as "called with the lock held".
+func (p *Prog) SameSection(a, b ssa.Instruction) bool {
+	if a == nil || b == nil || a.Parent() != b.Parent() {
+		return false
+	}
+	e1 := p.E1()
+	for _, h1 := range e1.held[a] {
+		for _, h2 := range e1.held[b] {
+			if h1.At == h2.At {
+				return true
+			}
+		}
+	}
+	fn := a.Parent()
+	entry := p.EntryLocks(fn)
+	if len(entry) == 0 {
+		return false
+	}
+	// the function must not touch the entry locks itself
+	touches := false
+	EachInstr(fn, func(in ssa.Instruction) {
+		if c := CallOf(in); c != nil {
+			if lo := classifyLockCall(c); lo != nil {
+				touches = true
+			}
+		}
+	})
+	for l := range entry {
+		if !strings.HasPrefix(l, "once:") && !touches {
+			return true
+		}
+	}
+	return false
+}
